@@ -4,6 +4,8 @@ package main
 import (
 	"bytes"
 	"fmt"
+	"github.com/theparanoids/ysshra/verifharness/lib/gen"
+	"golang.org/x/crypto/ssh/agent"
 	"net"
 	"runtime"
 	"sort"
@@ -744,6 +746,100 @@ func releaseWhileBusy(r *ev.Run) {
 	}
 }
 
+// backToBack: the request a client waits for is followed at once by a request with another code (two connections served
+// at the same moment, a client that pipelines). The waiter is released by the first of them, however quickly the
+// second arrives. Direct mode: the two announcements are made back to back from one goroutine, 60 rounds per pair.
+func backToBack(r *ev.Run) {
+	for vi, pair := range [][2]byte{{11, 13}, {13, 11}, {18, 19}, {0, 39}} {
+		c := r.Case("back-to-back", vi)
+		if c == nil || wedgedOnce || r.NumViolations() > 8 {
+			continue
+		}
+		r.Eval(1)
+		r.Guard(c, "matching request followed at once by another", pair, func() {
+			g, err := newRig(true)
+			if err != nil {
+				r.Count("back-to-back: rig could not be built", 1)
+				return
+			}
+			defer g.close()
+			for round := 0; round < 60; round++ {
+				w, err := g.startWaiter(pair[0])
+				if err != nil {
+					return
+				}
+				if n := waitParked(1, ev.OpTimeout()); n != 1 {
+					r.Violation(c, "waiter-does-not-register:back-to-back", fmt.Sprintf("code %d round %d: %d parked", pair[0], round, n), pair)
+					return
+				}
+				g.direct.Broadcast(pair[0])
+				g.direct.Broadcast(pair[1])
+				select {
+				case <-w.done:
+				case <-time.After(ev.OpTimeout()):
+					r.Violation(c, "waiter-not-released:matching-request-followed-at-once-by-another", fmt.Sprintf("round %d: a request with code %d, then at once one with code %d: the waiter on %d is still parked", round, pair[0], pair[1], pair[0]), pair)
+					wedgedOnce = true
+					return
+				}
+			}
+			r.Count("waiters released by a matching request that was followed at once by another code", 60)
+			r.Nontrivial(fmt.Sprintf("back-to-back:%d:%d", pair[0], pair[1]))
+		})
+	}
+}
+
+// housekeeping: what the agent does on its own while serving a request (dropping a lapsed certificate during a
+// listing) is not a request received from a client: a client waiting for the remove-identity code is not released by
+// a listing that happens to clean up, and is released by a remove request afterwards.
+func housekeeping(r *ev.Run) {
+	c := r.Case("housekeeping", 0)
+	if c == nil || wedgedOnce || r.NumViolations() > 8 {
+		return
+	}
+	r.Eval(1)
+	r.Guard(c, "listing that purges a lapsed certificate", nil, func() {
+		g, err := newRig(false)
+		if err != nil {
+			r.Count("housekeeping: rig could not be built", 1)
+			return
+		}
+		defer g.close()
+		now := uint64(time.Now().Unix())
+		for i, win := range [][2]uint64{{now - 7200, now - 3600}, {now + 3600, now + 7200}, {now - 7200, now - 60}} {
+			k := gen.Pool()[i]
+			g.ag.Keyring.Add(agent.AddedKey{PrivateKey: k.Priv, Certificate: gen.MakeCert(gen.CertSpec{Key: k, KeyID: "out of its window", ValidAfter: win[0], ValidBefore: win[1], Principals: []string{"u"}}), Comment: "stale"})
+		}
+		g.ag.Keyring.Add(agent.AddedKey{PrivateKey: gen.Pool()[5].Priv, Comment: "plain"})
+		w, err := g.startWaiter(18)
+		if err != nil {
+			return
+		}
+		defer w.conn.Close()
+		if n := waitParked(1, ev.OpTimeout()); n != 1 {
+			r.Violation(c, "waiter-does-not-register:housekeeping", fmt.Sprintf("%d parked", n), nil)
+			return
+		}
+		for _, code := range []byte{11, 11, 13} {
+			g.poke(code)
+			if w.poll() {
+				r.Violation(c, "waiter-released-by-other-code:housekeeping", fmt.Sprintf("a client waiting for code 18 (remove identity) returned after a request with code %d, during which the agent purged certificates that are out of their window", code), nil)
+				return
+			}
+		}
+		left, _ := g.ag.Keyring.List()
+		g.poke(18)
+		select {
+		case <-w.done:
+		case <-time.After(ev.OpTimeout()):
+			r.Violation(c, "waiter-not-released:housekeeping", "", nil)
+			wedgedOnce = true
+			return
+		}
+		r.Count(fmt.Sprintf("waiters on the remove-identity code left alone by listings that purged stale certificates (%d identities left)", len(left)), 1)
+		r.Nontrivial("housekeeping")
+	})
+}
+
 // worn: an agent that has already received a great many requests with the awaited code (an agent lives for days and
 // every ssh connection attempt sends a listing request). The number of earlier requests crosses the 8- and 16-bit
 // boundaries while waiters come and go: each waiter must ignore a non-matching request and be released by the next
@@ -947,6 +1043,8 @@ func main() {
 		worn(r)
 		reusedConnection(r)
 		releaseWhileBusy(r)
+		backToBack(r)
+		housekeeping(r)
 		cs := []string{}
 		_ = sort.Strings
 		_ = cs
